@@ -8,7 +8,7 @@ RULE = ("op mn.parse <phrase> (returns printed form, length, Display) on: word c
         "(quick: each word once at a random position of a valid phrase; thorough: each word at each of 24 positions); all 2048 candidates "
         "for the final word of a random prefix for each count 12..24 (quick: counts 12 and 24 in full, 128 candidates for the others); random entropies of "
         "the five sizes via mn.random with injected entropy (parse∘print round trip); whitespace layouts; malformed stream. "
-        "a random sample of the cases is re-run through every sub-command that reaches the same code (vlib/routes.py); wide layouts (runs of up to 50 white-space characters, column layout, valid phrases padded to exact byte lengths 200..1000003 around 216 / 2^k / 10^k); near-miss tokens (valid phrases with one word replaced by an upper-case / full-width / ligature / roman-numeral / superscript / mathematical-alphabet / abbreviated / invisibly-padded look-alike of the same word); non-trivial = distinct phrase that reaches the checksum comparison (12..24 known words); judge = executable Spec.Bip39.Valid")
+        "a random sample of the cases is re-run through every sub-command that reaches the same code (vlib/routes.py); single-separator layouts for every white-space character; valid phrases followed by further list words / a second phrase / junk; wide layouts (runs of up to 50 white-space characters, column layout, valid phrases padded to exact byte lengths 200..1000003 around 216 / 2^k / 10^k); near-miss tokens (valid phrases with one word replaced by an upper-case / full-width / ligature / roman-numeral / superscript / mathematical-alphabet / abbreviated / invisibly-padded look-alike of the same word); non-trivial = distinct phrase that reaches the checksum comparison (12..24 known words); judge = executable Spec.Bip39.Valid")
 EXHAUSTIVE_SWEEPS = {
     "quick": ["word counts 0..40", "all 2048 words (once each)", "all 2048 final-word candidates for 12- and 24-word prefixes"],
     "thorough": ["word counts 0..40", "all 2048 words x 24 positions", "all 2048 final-word candidates for every count 12..24"]}
@@ -87,6 +87,27 @@ def gen(rng, tier):
         # an invalid one of each size too (the size must not make it valid)
         bad = " ".join(ws[:-1] + [W[(W.index(ws[-1]) + 1) % 2048]])
         add(bad + " " * (4096 - len(bad)), "malformed", "padded")
+    # exactly one separator character between the words and nothing around them, for every white-space character (the
+    # phrase is as long as its canonical form, or differs only by the width of the separators)
+    for _ in range(6 if tier == "thorough" else 2):
+        for sep in WS:
+            ws = bip39.rand_phrase(rng)
+            add(sep.join(ws), "layout", "single-separator")
+        ws = bip39.rand_phrase(rng)
+        add("".join(w + rng.choice(WS[:6]) for w in ws[:-1]) + ws[-1], "layout", "single-separator", "mixed")
+        k = rng.randrange(1, len(ws))
+        add(" ".join(ws[:k]) + "\n" + " ".join(ws[k:]), "layout", "single-separator", "one-line-break")
+    # a valid phrase followed by more tokens: further list words (1..24 of them, or a second valid phrase) or junk — the
+    # word count is that of the whole input, and every token is looked up
+    for n in (12, 15, 18, 21, 24):
+        for _ in range(3 if tier == "thorough" else 1):
+            ws = bip39.rand_phrase(rng, n)
+            for extra in (1, 2, 3, 6, 9, 12, 24):
+                add(" ".join(ws + [rng.choice(W) for _ in range(extra)]), "malformed", "valid-prefix-plus-words", nt=(n + extra <= 24))
+            add(" ".join(ws + bip39.rand_phrase(rng, rng.choice([12, 24]))), "malformed", "valid-prefix-plus-phrase", nt=False)
+            for junk in (["xyzzy"], ["not-a-word", "12345"], ["é"], ["ABANDON"], [ws[0][:3]]):
+                add(" ".join(ws + junk), "malformed", "valid-prefix-plus-junk")
+                add(" ".join(junk + ws), "malformed", "junk-plus-valid", nt=False)
     # malformed
     for _ in range(400 if tier == "thorough" else 120):
         ws = bip39.rand_phrase(rng)
